@@ -166,6 +166,9 @@ def run(ctx):
     # publisher: publishing/closing/kicking on one thread against subscriber threads (PublisherConc.tla at lock grain)
     from checks import c16
     c16.conc_replay(ctx, tag="lockpub", max_paths_quick=500)
+    # generator_aggregator's internal queue: sources pushing from their own threads against the aggregate's pop (AggregatorConc.tla)
+    from checks import c14
+    c14.conc_replay(ctx, tag="lockagg", max_paths_quick=400, sources=(2,))
     ctx.assume("view-based RA+relaxed model (no load-buffering / out-of-thin-air executions), writes appended to the modification order, <= 7 messages per location, 2 threads per scenario")
     ctx.assume("plain accesses are where the WMM scenario programs place them (transcribed from the code); compiler transformations are trusted")
     ctx.assume("lock-based components: queue, thread_pool and scheduler (thread mode) are bound by lock-grain replay (a moved/removed/added lock "
